@@ -367,9 +367,29 @@ def _elim(stmts, mk):
                 raise Cannot("return inside with followed by code")
             out.append(ast.copy_location(ast.With(items=s.items, body=_elim(s.body, mk) or [ast.copy_location(ast.Pass(), s)]), s))
             return out
+        if isinstance(s, ast.For) and any(isinstance(n, ast.Break) for b in s.body for n in ast.walk(b)):
+            # the loop has breaks of its own: a flag tells "returned" from "broke out"
+            for b in s.body:
+                for n in ast.walk(b):
+                    if isinstance(n, (ast.For, ast.While, ast.Try, ast.With, ast.Match)) and _has_return(n):
+                        raise Cannot("return nested in loop construct")
+            flag = f"_ret{next(_counter)}"
+
+            def mk_flag_break(v, at, mk=mk, flag=flag):
+                return mk(v, at) + [ast.copy_location(ast.Assign(targets=[ast.Name(id=flag, ctx=ast.Store())], value=ast.Constant(value=True), lineno=getattr(at, "lineno", 0)), at),
+                                    ast.copy_location(ast.Break(), at)]
+
+            out.append(ast.copy_location(ast.Assign(targets=[ast.Name(id=flag, ctx=ast.Store())], value=ast.Constant(value=False), lineno=getattr(s, "lineno", 0)), s))
+            def mk_flag_only(v, at, mk=mk, flag=flag):
+                return mk(v, at) + [ast.copy_location(ast.Assign(targets=[ast.Name(id=flag, ctx=ast.Store())], value=ast.Constant(value=True), lineno=getattr(at, "lineno", 0)), at)]
+
+            out.append(ast.copy_location(ast.For(target=s.target, iter=s.iter, body=_elim_loop(s.body, mk_flag_break),
+                                                 orelse=_elim(s.orelse, mk_flag_only) if s.orelse else []), s))
+            tail = _elim(rest, mk)
+            if tail:
+                out.append(ast.copy_location(ast.If(test=ast.UnaryOp(op=ast.Not(), operand=ast.Name(id=flag, ctx=ast.Load())), body=tail, orelse=[]), s))
+            return out
         if isinstance(s, ast.For):
-            if any(isinstance(n, ast.Break) for b in s.body for n in ast.walk(b)):
-                raise Cannot("loop with break and return")
             for b in s.body:
                 for n in ast.walk(b):
                     if isinstance(n, (ast.For, ast.While, ast.Try, ast.With, ast.Match)) and _has_return(n):
@@ -660,6 +680,25 @@ class Inliner:
                 split = self._split_boolop(s, mod, enclosing)
                 if split is not None:
                     return split
+        if isinstance(s, ast.If):
+            # `if (x := helper(…)) is not None:`  ->  `x = helper(…)` then `if x is not None:` (the walrus is what the test
+            # evaluates first, so nothing is reordered)
+            t = s.test
+            first = t.operand if isinstance(t, ast.UnaryOp) and isinstance(t.op, ast.Not) else t
+            if isinstance(first, ast.Compare):
+                first = first.left
+            if isinstance(first, ast.NamedExpr) and isinstance(first.target, ast.Name) and isinstance(first.value, ast.Call) \
+                    and self._resolve(first.value, mod, enclosing) is not None:
+                asg = ast.copy_location(ast.Assign(targets=[ast.Name(id=first.target.id, ctx=ast.Store())], value=first.value, lineno=s.lineno), s)
+                name_node = ast.copy_location(ast.Name(id=first.target.id, ctx=ast.Load()), first)
+
+                class Rep(ast.NodeTransformer):
+                    def visit_NamedExpr(self, n):
+                        return name_node if n is first else self.generic_visit(n)
+
+                s.test = Rep().visit(s.test)
+                self.log.append(f"walrus on a helper call written as an assignment at {mod}:{getattr(s, 'lineno', 0)}")
+                return [asg, s]
         if call is None or self._resolve(call, mod, enclosing) is None:
             hoisted = self._hoist_nested(s, mod, enclosing, names)
             if hoisted is not None:
